@@ -52,7 +52,12 @@ def main(argv):
                 found = cache[key]
             except Exception as e:  # the search is best-effort; never masks the violation
                 v['replay_search_error'] = repr(e)
+            if v.get('hint_only') and not found:
+                out.undecided.append(f'{v["obligation"]}: only a proof hint (assert) fails in {v["function"]} and the runtime contract check found no failing input within its bound: undecided, not an alarm')
+                v['demoted'] = True
+                continue
             path = driver.write_replay(a.pid, v, found)
             v['replay'] = path
             print(f'VIOLATION property={a.pid} replay={path}' + ('' if found else ' no-failing-input-found'))
+        out.violations = [v for v in out.violations if not v.get('demoted')]
     return driver.finish(a.pid, out, tier, seed, t0, spec['level'], spec)
